@@ -127,22 +127,53 @@ def alignment(ctx):
             ds = x.drivers("%s.%s" % (pn, port_sig))
             if not ob.need(len(ds) == 1, "crossbar driver of %s.%s not found" % (pn, port_sig)):
                 continue
-            val = ds[0].value
-            n = Const(0)
-            inner = val
-            while isinstance(inner, Op) and inner.op == "delay":
-                n = Op("+", (n, inner.args[1]))
-                inner = inner.args[0]
-            if ds[0].domain.startswith("sync"):
-                n = Op("+", (n, Const(1)))
+            # register-stage profile of the strobe: the (symbolic) number of register stages on EVERY path from a primitive signal to the port strobe, whatever
+            # the shape of the delay logic (one chain per master, or one shared chain plus a delayed owner index decoded afterwards)
+            def stages(t_, dep=0):
+                if dep > 12:
+                    return None
+                if isinstance(t_, Op) and t_.op == "delay":
+                    r_ = stages(t_.args[0], dep + 1)
+                    return None if r_ is None else {(s0, Op("+", (n0, t_.args[1]))) for s0, n0 in r_}
+                if isinstance(t_, Op):
+                    out_ = set()
+                    for a_ in t_.args:
+                        if isinstance(a_, Const):
+                            continue
+                        r_ = stages(a_, dep + 1)
+                        if r_ is None:
+                            return None
+                        out_ |= r_
+                    return out_
+                if isinstance(t_, (Obj, Sym)):
+                    dd_ = x.drivers(t_)
+                    if dd_ and all(d_.domain.startswith("sync") for d_ in dd_):
+                        out_ = set()
+                        for d_ in dd_:
+                            r_ = stages(d_.value, dep + 1)
+                            if r_ is None:
+                                return None
+                            out_ |= {(s0, Op("+", (n0, Const(1)))) for s0, n0 in r_}
+                        return out_
+                    cd_ = x.single_comb_def(t_)
+                    if cd_ is not None and not isinstance(cd_, Const):
+                        return stages(cd_, dep + 1)
+                    return {(key(t_), Const(0))}
+                return set()
+            prof = stages(ds[0].value)
+            if ds[0].domain.startswith("sync") and prof is not None:
+                prof = {(s0, Op("+", (n0, Const(1)))) for s0, n0 in prof}
             exp = Op("+", (Op("+", (Sym("controller.settings.phy." + lat), Const(st[en]))), Const(dp[path])))
-            eq = lin_eq(n, exp)
-            ob.instance("%s.%s delay" % (pn, port_sig), {"crossbar": key(n), "steerer_stages": st[en], "datapath_stages": dp[path], "expected": key(exp)})
-            if not eq:
-                ob.refute("align:%s.%s" % (pn, port_sig), "the crossbar delays %s by %s cycles but the data phase is reached %s cycles after the "
+            if not ob.need(prof is not None and len(prof) > 0, "%s.%s: register-stage profile not computable" % (pn, port_sig)):
+                continue
+            ob.instance("%s.%s delay" % (pn, port_sig), {"stage profile": sorted((s0, key(n0)) for s0, n0 in prof)[:8], "steerer_stages": st[en], "datapath_stages": dp[path],
+                                                        "expected": key(exp)})
+            wrong = sorted((s0, key(n0)) for s0, n0 in prof if not lin_eq(n0, exp))
+            if wrong:
+                ob.refute("align:%s.%s" % (pn, port_sig), "the crossbar delays %s by %s cycles (from %s) but the data phase is reached %s cycles after the "
                           "command is accepted (steerer %d + phy.%s + datapath %d): data would be taken/returned in the wrong cycle" %
-                          (port_sig, key(n), key(exp), st[en], lat, dp[path]), ds[0].loc)
-            if "bank0." + ("wdata_ready" if "wdata" in port_sig else "rdata_valid") not in " ".join(support(inner)):
+                          (port_sig, wrong[0][1], wrong[0][0], key(exp), st[en], lat, dp[path]), ds[0].loc)
+            if not any(("bank0." + ("wdata_ready" if "wdata" in port_sig else "rdata_valid")) in s0 for s0, _ in prof):
                 ob.refute("align-src:%s.%s" % (pn, port_sig), "%s is not derived from the banks' %s strobes" % (port_sig, port_sig), ds[0].loc)
 
 
@@ -252,12 +283,61 @@ def routing(ctx):
             ob.refute("model-mask-polarity", "the bundled DRAM model's write-enable is not derived from the inverted DFI mask: %s" % [str(l) for l in wes][:2], wes[0].loc)
 
 
+def lock_analysis(R):
+    """Classify the disjuncts of req.lock.  -> dict(stages covered, level term, occupancy counter, unknown disjuncts, fifo, buf, text)
+    An occupancy counter is a register compared with 0 whose drivers are exactly +1 on (accept & ~execute) and -1 on (execute & ~accept), with accept =
+    fire(req) and execute = fire(queue head) - decided by truth table over the strobes, not by the way the If/Elif is written."""
+    v = R.v
+    fifos = [o for o in v.d.objs if o.cls == "SyncFIFO"]
+    bufs = [o for o in v.d.objs if o.cls == "Buffer"]
+    out = {"ok": bool(fifos and bufs), "stages": set(), "level": False, "occupancy": None, "unknown": [], "foreign": [], "fifo": fifos[0] if fifos else None, "buf": bufs[0] if bufs else None}
+    lk = v.single_comb_def(Sym(key(R.req) + ".lock"))
+    out["term"] = lk
+    if lk is None or not out["ok"]:
+        out["ok"] = False
+        return out
+    f_valid, b_valid, f_level = str(fifos[0]) + ".source.valid", str(bufs[0]) + ".source.valid", str(fifos[0]) + ".level"
+    reqk = key(R.req)
+    push = [expand_term(v, Sym(reqk + ".valid")), expand_term(v, Sym(reqk + ".ready"))]
+    pop = [expand_term(v, Sym(str(bufs[0]) + ".source.valid")), expand_term(v, Sym(str(bufs[0]) + ".source.ready"))]
+    for a, p in disj(expand_term(v, lk)):
+        k_ = lkey((a, p))
+        if k_ == f_valid or k_ == b_valid:
+            out["stages"].add(k_)
+        elif k_ == f_level:
+            out["level"] = True
+        elif p and isinstance(a, (Obj, Sym)) and v.drivers(a) and all(d.domain.startswith("sync") for d in v.drivers(a)):
+            ds = v.drivers(a)
+            inc = [d for d in ds if lin_diff(d.value, d.target) is not None and lin_diff(d.value, d.target).is_const() and lin_diff(d.value, d.target).constval() == 1]
+            dec = [d for d in ds if lin_diff(d.target, d.value) is not None and lin_diff(d.target, d.value).is_const() and lin_diff(d.target, d.value).constval() == 1]
+            if len(inc) == 1 and len(dec) == 1 and len(ds) == 2:
+                def cond(l_):
+                    return [expand_term(v, c_ if p_ else Op("~", (c_,))) for c_, p_ in l_.guards]
+                npop = Op("~", (Op("&", tuple(pop)),))
+                npush = Op("~", (Op("&", tuple(push)),))
+                r1, _ = implies(cond(inc[0]), push + [npop])
+                r2, _ = implies(push + [npop], cond(inc[0]))
+                r3, _ = implies(cond(dec[0]), pop + [npush])
+                r4, _ = implies(pop + [npush], cond(dec[0]))
+                if r1 and r2 and r3 and r4:
+                    out["occupancy"] = key(a)
+                    continue
+            if inc or dec:
+                out["unknown"].append(k_)        # counter-like, but not recognised as the occupancy of the queue
+            else:
+                out["foreign"].append(k_)
+        else:
+            out["foreign"].append(k_)
+    out["names"] = (f_valid, b_valid, f_level)
+    return out
+
+
 def grant_and_lock(ctx):
     ob4 = ctx.ob("C01.4", "response routing needs a frozen grant: wdata_ready/rdata_valid are routed by arbiter.grant == nm, so the arbiter may only "
                           "advance when the bank is neither valid nor locked, and the bank lock must cover both queue stages' valid from the cycle "
                           "after acceptance (an unbuffered first stage)", 4)
     ob5 = ctx.ob("C01.5", "one bank at a time per master: a master is selected on a bank only if no OTHER bank holds its lock under that bank's "
-                          "grant, evaluated combinationally (no register between lock and selection); cmd.ready = grant & selected & bank.ready", 4)
+                          "grant, evaluated combinationally (no register between lock and selection); cmd.ready = grant & selected & bank.ready", 1)
     for nb, nm_ in ((2, 2),) if ctx.tier == "quick" else ((2, 2), (4, 3)):
         x = xbar_view(ctx, nb, nm_)
         ports = [key(r) for n_, r in x.top.meta.get("results", []) if n_ == "get_port"]
@@ -271,76 +351,115 @@ def grant_and_lock(ctx):
             if not need <= c:
                 ob4.refute("arbiter-ce:%d/%d" % (b, nb), "bank %d's arbiter can advance under %s: without %s the grant can change while a command "
                            "of the granted master is still queued, and its wdata_ready/rdata_valid goes to another master" % (b, sorted(c), sorted(need - c)), ce[0].loc)
-            for i, p in enumerate(ports):
-                # C01.5
-                rd = x.drivers(p + ".cmd.ready")
-                if not ob5.need(len(rd) == 1, "%s.cmd.ready driver not found" % p):
-                    continue
-                terms = [t for t in disj(rd[0].value)]
-                mine = [t for t, pol in terms if pol and "controller.bank%d.ready" % b in litset(conj(t))]
-                if not ob5.need(len(mine) == 1, "%s.cmd.ready has no term for bank %d" % (p, b)):
-                    continue
-                ck = conj(mine[0])
-                ks = litset(ck)
-                # grant == i
-                if eqk("arbiters[%d].grant" % b, i) not in ks:
-                    ob5.refute("ready-grant:%s:%d/%d" % (p, b, nb), "%s.cmd.ready for bank %d is not conditioned on that bank's grant being master %d: %s" % (p, b, i, sorted(ks)), rd[0].loc)
-                # ~locked with locked covering every other bank
-                negs = [a for a, pol in ck if not pol]
-                cover = set()
-                registered = False
-                for a in negs:
-                    for t in disj(a) if isinstance(a, Op) and a.op == "|" else [(a, True)]:
-                        tt = t[0]
-                        # follow signals defined by sync assignments (a register in the lock path)
-                        if isinstance(tt, (Obj, Sym)):
-                            dd = x.drivers(tt)
-                            if dd and all(d.domain.startswith("sync") for d in dd):
-                                registered = True
-                                for d in dd:
-                                    for u in disj(d.value):
-                                        cover |= _lock_term(u[0])
-                            continue
-                        cover |= _lock_term(tt)
-                exp = {(ob_, i) for ob_ in range(nb) if ob_ != b}
-                ob5.instance("banks=%d: %s on bank %d" % (nb, p, b), {"conjuncts": sorted(ks)[:6], "locks_seen": sorted(cover), "registered": registered})
-                if registered:
-                    ob5.refute("locked-registered:%s:%d/%d" % (p, b, nb), "the `locked` term of %s on bank %d passes through a register: the lock of "
-                               "another bank is seen one cycle late, so a back-to-back command to a second bank is accepted while the first bank "
-                               "still holds this master's command (responses can then return out of command order)" % (p, b), rd[0].loc)
-                elif cover != exp:
-                    ob5.refute("locked-cover:%s:%d/%d" % (p, b, nb), "%s is selectable on bank %d although the lock of bank(s) %s under that bank's grant "
-                               "== %d is not checked" % (p, b, sorted(o for o, m in exp - cover), i), rd[0].loc)
-                # address decode term (ba == b)
-                bak = [a for a, pol in ck if ".cmd.addr" in key(a)]
-                if not any(lkey((a, pol)) == key(Op("==", (a2, Const(b)))) for a, pol in ck for a2 in [a if not (isinstance(a, Op) and a.op == "==") else
-                           [z for z in a.args if not isinstance(z, Const)][0]] if ".cmd.addr" in key(a)):
-                    ob5.refute("ready-bank:%s:%d/%d" % (p, b, nb), "%s.cmd.ready for bank %d is not conditioned on the bank address" % (p, b), rd[0].loc)
+        # C01.5 by truth table of the extracted crossbar (lsa/ceval.py): every combination of the masters' valid / target bank, the arbiters' grants, the banks'
+        # lock / ready (and of any register found in the cone).  Specification (safety direction): master m's command is accepted only if some bank b has
+        # grant[b] == m, m addresses b, bank b is ready, and no OTHER bank holds a lock while granted to m; and a bank sees a valid request only from the
+        # granted master under the same conditions.
+        from ..ceval import CEval
+        from ..bits import Unresolved
+        import itertools
+        cfgx = {"controller.settings.geom.colbits": 10, "controller.address_align": 3, "controller.settings.bank_byte_alignment": 0, "controller.data_width": 16,
+                "controller.address_width": 21, "controller.nbanks": nb, "controller.nranks": 1}
+        cba = 7
+        for p_ in ports:
+            cfgx["len(%s.cmd.addr)" % p_] = 21 + (nb.bit_length() - 1)
+        def build(vals, regs):
+            vld, bnk, gnt, lck, rdy = vals
+            env = dict(regs)
+            for m_, p_ in enumerate(ports):
+                env[p_ + ".cmd.valid"] = vld[m_]
+                env[p_ + ".cmd.addr"] = (bnk[m_] << cba) | 0x55
+                env[p_ + ".cmd.we"] = 0
+            for b_ in range(nb):
+                env["arbiters[%d].grant" % b_] = gnt[b_]
+                env["controller.bank%d.lock" % b_] = lck[b_]
+                env["controller.bank%d.ready" % b_] = rdy[b_]
+            return env
+        space = [list(itertools.product((0, 1), repeat=nm_)), list(itertools.product(range(nb), repeat=nm_)), list(itertools.product(range(nm_), repeat=nb)),
+                 list(itertools.product((0, 1), repeat=nb)), list(itertools.product((0, 1), repeat=nb))]
+        rows = list(itertools.product(*space))
+        if len(rows) > 4096:
+            import random
+            rows = random.Random(ctx.seed).sample(rows, 4096)
+        regs = []
+        try:
+            ce0 = CEval(x, build(rows[-1], {}), cfgx)
+            for p_ in ports:
+                ce0.val(Sym(p_ + ".cmd.ready"))
+            for b_ in range(nb):
+                ce0.val(Sym("controller.bank%d.valid" % b_))
+            regs = sorted(ce0.missing)
+        except Unresolved as e:
+            ob5.unknown("banks=%d masters=%d: crossbar routing not evaluable (%s)" % (nb, nm_, e))
+            continue
+        if len(regs) > 6:
+            ob5.unknown("banks=%d masters=%d: %d registers in the acceptance cone (%s...)" % (nb, nm_, len(regs), regs[:3]))
+            continue
+        bad = None
+        nrow = 0
+        seen_ready = False
+        try:
+            for vals in rows:
+                vld, bnk, gnt, lck, rdy = vals
+                for rv in itertools.product((0, 1), repeat=len(regs)):
+                    ce = CEval(x, build(vals, dict(zip(regs, rv))), cfgx)
+                    nrow += 1
+                    for m_, p_ in enumerate(ports):
+                        def allowed(b_):
+                            return gnt[b_] == m_ and bnk[m_] == b_ and not any(lck[o_] and gnt[o_] == m_ for o_ in range(nb) if o_ != b_)
+                        got = ce.val(Sym(p_ + ".cmd.ready")) & 1
+                        seen_ready = seen_ready or bool(got)
+                        if got and not any(allowed(b_) and rdy[b_] for b_ in range(nb)) and bad is None:
+                            bad = ("ready", m_, vals, dict(zip(regs, rv)))
+                    for b_ in range(nb):
+                        g_ = gnt[b_]
+                        got = ce.val(Sym("controller.bank%d.valid" % b_)) & 1
+                        ok_ = vld[g_] and bnk[g_] == b_ and not any(lck[o_] and gnt[o_] == g_ for o_ in range(nb) if o_ != b_)
+                        if got and not ok_ and bad is None:
+                            bad = ("valid", b_, vals, dict(zip(regs, rv)))
+        except Unresolved as e:
+            ob5.unknown("banks=%d masters=%d: crossbar routing not evaluable (%s)" % (nb, nm_, e))
+            continue
+        ob5.instance("banks=%d masters=%d acceptance truth table" % (nb, nm_), {"rows": nrow, "registers in the cone": regs}, nontrivial=True)
+        if not seen_ready:
+            ob5.unknown("banks=%d masters=%d: no row of the truth table accepts a command (evaluation vacuous)" % (nb, nm_))
+        if bad:
+            kind, idx, (vld, bnk, gnt, lck, rdy), rv = bad
+            if kind == "ready":
+                ob5.refute("ready-spec:%d/%d" % (idx, nb), "banks=%d: master %d's command is accepted with valid=%s target banks=%s grants=%s locks=%s readys=%s registers=%s although no bank is "
+                           "granted to it, addressed by it, ready, and free of a lock held for it on another bank: two banks can then hold this master's commands and answer out of "
+                           "order, or a command is acknowledged that no bank took" % (nb, idx, vld, bnk, gnt, lck, rdy, rv), x.drivers(ports[idx] + ".cmd.ready")[0].loc)
+            else:
+                ob5.refute("valid-spec:%d/%d" % (idx, nb), "banks=%d: bank %d sees a valid request with valid=%s target banks=%s grants=%s locks=%s registers=%s although the granted master "
+                           "does not (or must not) address it" % (nb, idx, vld, bnk, gnt, lck, rv), x.drivers("controller.bank%d.valid" % idx)[0].loc)
     # lock covers both stages, first stage unbuffered
     for ap in (True,):
         R = BMRoles(ctx, ob4, {"settings.with_auto_precharge": ap})
         if not R.ok:
             return
         v = R.v
-        fifos = [o for o in v.d.objs if o.cls == "SyncFIFO"]
-        bufs = [o for o in v.d.objs if o.cls == "Buffer"]
-        lk = v.single_comb_def(Sym(key(R.req) + ".lock"))
-        ks = litset(disj(lk)) if lk is not None else set()
-        exp = {str(fifos[0]) + ".source.valid", str(bufs[0]) + ".source.valid"} if fifos and bufs else set()
-        ob4.instance("bank lock", sorted(ks))
-        lvl = (str(fifos[0]) + ".level") if fifos else None
-        extra = ks - exp
-        if not exp or not exp <= ks or not extra <= {lvl}:
-            ob4.refute("lock-support", "req.lock is %s, expected the OR of both queue stages' valid %s (optionally the FIFO level): it must hold "
-                       "while a command is queued and fall when the queue drains" % (sorted(ks), sorted(exp)), None)
-        if fifos:
-            buffered = fifos[0].args[2] if len(fifos[0].args) > 2 else fifos[0].kwargs.get("buffered", Const(False))
-            ob4.instance("look-ahead FIFO buffered argument", {"buffered": key(buffered), "lock_has_level_term": lvl in ks})
-            if not is0(buffered) and not (isinstance(buffered, Const) and buffered.v is False) and lvl not in ks:
-                ob4.refute("lock-gap-buffered-fifo", "the look-ahead FIFO can be built with buffered=%s: a buffered FIFO raises source.valid two cycles "
-                           "after a command is accepted, so req.lock (and bank.valid) are both low in the cycle in between and the crossbar may "
-                           "accept the same master's next command on another bank (C01.5 hole); the lock has no FIFO-level term to cover the gap"
-                           % key(buffered), fifos[0].loc, {"buffered": key(buffered)})
+        LA = lock_analysis(R)
+        if not ob4.need(LA["ok"], "bank machine: req.lock definition or the two queue stages not found"):
+            return
+        f_valid, b_valid, f_level = LA["names"]
+        ob4.instance("bank lock", {"term": key(LA["term"])[:200], "queue stages covered": sorted(LA["stages"]), "fifo level term": LA["level"],
+                                   "occupancy counter": LA["occupancy"], "other disjuncts": LA["unknown"]})
+        covered = LA["occupancy"] is not None or LA["stages"] == {f_valid, b_valid}
+        if LA["unknown"]:
+            # extra disjuncts can only make the lock hold longer: coverage is decided on the recognised part, anything else is not understood
+            if not covered:
+                ob4.unknown("req.lock has disjuncts this rule cannot classify (%s) and the recognised ones do not cover both queue stages" % LA["unknown"])
+        elif not covered:
+            ob4.refute("lock-support", "req.lock is %s: it covers only %s of the two queue stages' valid (%s, %s) and there is no occupancy counter: it drops while a command "
+                       "is still queued" % (key(LA["term"])[:160], sorted(LA["stages"]), f_valid, b_valid), None)
+        fifo = LA["fifo"]
+        buffered = fifo.args[2] if len(fifo.args) > 2 else fifo.kwargs.get("buffered", Const(False))
+        ob4.instance("look-ahead FIFO buffered argument", {"buffered": key(buffered), "lock_has_level_term": LA["level"], "occupancy counter": LA["occupancy"]})
+        if not is0(buffered) and not (isinstance(buffered, Const) and buffered.v is False) and not LA["level"] and LA["occupancy"] is None and not LA["unknown"]:
+            ob4.refute("lock-gap-buffered-fifo", "the look-ahead FIFO can be built with buffered=%s: a buffered FIFO raises source.valid two cycles "
+                       "after a command is accepted, so req.lock (and bank.valid) are both low in the cycle in between and the crossbar may "
+                       "accept the same master's next command on another bank (C01.5 hole); the lock has no FIFO-level term / occupancy counter to cover the gap"
+                       % key(buffered), fifo.loc, {"buffered": key(buffered)})
 
 
 def eqk(sig, n):
